@@ -3,7 +3,7 @@
 (* patterns x parameters.  One initial state per case; Emit prints it.        *)
 EXTENDS Integers, Sequences, FiniteSets, TLC, Json
 Inf == 500000000
-Dom(name) ==
+Dom0(name) ==
   CASE name = "b01"  -> [lb |-> 0,  ub |-> 1,  int |-> TRUE]
     [] name = "f0"   -> [lb |-> 0,  ub |-> 0,  int |-> TRUE]
     [] name = "f1"   -> [lb |-> 1,  ub |-> 1,  int |-> TRUE]
@@ -23,6 +23,11 @@ Dom(name) ==
     [] name = "im31" -> [lb |-> -3, ub |-> 1,  int |-> TRUE]      \* zero inside, |lb| > ub
     [] name = "cm21" -> [lb |-> -2, ub |-> 1,  int |-> FALSE]
     [] name = "im13" -> [lb |-> -1, ub |-> 3,  int |-> TRUE]      \* zero inside, |lb| < ub
+\* domains with half-integer ends (lb, ub in half units): a continuous variable fixed at 5/2, and [1/2, 5/2]
+HalfDom(name) == CASE name = "cfixh" -> [lb |-> 5, ub |-> 5, int |-> FALSE, half |-> TRUE]
+                   [] name = "cfrac" -> [lb |-> 1, ub |-> 5, int |-> FALSE, half |-> TRUE]
+Dom(name) == IF name \in {"cfixh", "cfrac"} THEN HalfDom(name)
+             ELSE [lb |-> Dom0(name).lb, ub |-> Dom0(name).ub, int |-> Dom0(name).int, half |-> FALSE]
 NumDoms == {"b01", "pm2", "i03", "i13", "neg", "fix2", "c02", "cpm1", "cneg", "cfix", "ge0i", "le0c", "free", "gem2"}
 AsymDoms == {"im31", "cm21", "im13"}
 SmallDoms == {"b01", "pm2", "i13", "neg", "fix2", "c02", "cpm1", "ge0i", "free"}
@@ -35,6 +40,13 @@ Base(type, doms) == [type |-> type, doms |-> [j \in 1..Len(doms) |-> Dom(doms[j]
 Cases ==
   {Base(t, <<a>>) : t \in {"Abs"}, a \in NumDoms \cup AsymDoms}
   \cup {Base("Not", <<a>>) : a \in BinDoms}
+  \* a fractional constant among integer arguments: the result is not integer-valued
+  \cup {Base(t, <<a, b>>) : t \in {"Max", "Min"}, a \in IntDoms \cup {"c02"}, b \in {"cfixh", "cfrac"}}
+  \cup {Base(t, <<b, a>>) : t \in {"Max", "Min"}, a \in IntDoms, b \in {"cfixh"}}
+  \cup {Base(t, <<a, b, c>>) : t \in {"Max", "Min"}, a \in {"i03", "pm2"}, b \in {"cfixh", "fix2"}, c \in {"i13", "cfixh"}}
+  \cup {Base("IfThen", <<a, b, c>>) : a \in BinDoms, b \in {"cfixh", "cfrac", "i03"}, c \in {"cfixh", "i13", "fix2"}}
+  \cup {Base("Abs", <<a>>) : a \in {"cfixh", "cfrac"}}
+  \cup {[Base("LinFunc", <<a, b>>) EXCEPT !.lin = <<1, 1>>] : a \in IntDoms, b \in {"cfixh"}}
   \* functions decided on measured samples (Bounds!Transc); k = index into the parameter menu of checks/c06.py
   \cup {Base(t, <<a>>) : t \in {"Exp", "Log", "Sin", "Cos", "Tan", "Asin", "Acos", "Atan", "Sinh", "Cosh", "Tanh",
                                  "Asinh", "Acosh", "Atanh"}, a \in NumDoms \cup AsymDoms}
